@@ -12,6 +12,8 @@ Ltac bridge := intros; cbv beta delta [
   gen_cr_adjust gen_mida_width gen_mida_index gen_mida_n_fill gen_mida_fill_start gen_field_len gen_gfbn_first
   gen_gfbn_step gen_gfbn_keep_len gen_vcf_shift_col gen_vcf_shift gen_sam_extra_start gen_sam_extra_len
   gen_hfm_line_len gen_hfm_ignored gen_value_start gen_value_len gen_value_keep_len gen_stop_len m_stop_len gen_flag_len_match m_flag_len_match
+  gen_sam_extra_end0 gen_sam_extra_probe gen_sam_extra_end gen_sam_entry_ends_before_cr gen_sam_last_field gen_sam_cr_probe
+  gen_sam_cr_adjust m_extra_end0 m_extra_probe m_extra_end
   m_n_fields m_size m_keep m_sentinel m_start m_entry_end m_entry_ends_before_cr m_cr_probe m_cr_byte m_cr_adjust
   m_mida_n_fill m_mida_index m_keep_end m_pos_shift m_pos_shift_col m_extra_start m_extra_len m_line_len m_ignored
   m_value_start m_value_len] zeta;
@@ -47,7 +49,14 @@ Lemma b_gfbn_keep : forall s e, s + gen_gfbn_keep_len (gen_field_len s e) = m_ke
 Lemma b_vcf_shift : forall v, gen_vcf_shift_col = m_pos_shift_col /\ gen_vcf_shift v = m_pos_shift v.  Proof. split; bridge. Qed.
 (* SAM rest-of-line field *)
 Lemma b_sam_extra_start : forall s e, gen_sam_extra_start s (gen_field_len s e) = m_extra_start e.  Proof. bridge. Qed.
-Lemma b_sam_extra_len : forall ee st, gen_sam_extra_len ee st = m_extra_len ee st.  Proof. bridge. Qed.
+Lemma b_sam_extra_end : forall ee e c, gen_sam_extra_end0 ee = m_extra_end0 ee /\ gen_sam_extra_probe e = m_extra_probe e
+                                       /\ gen_sam_extra_end e c = m_extra_end e c.
+Proof. repeat split; bridge. Qed.
+Lemma b_sam_extra_len : forall en st, gen_sam_extra_len en st = m_extra_len en st.  Proof. bridge. Qed.
+(* SAMBuffer CR handling: record ends before the adjustment, the last end of a row (flat index cumsum - 1) moves before a CR *)
+Lemma b_sam_cr : forall cum e c, gen_sam_entry_ends_before_cr = m_entry_ends_before_cr /\ gen_sam_last_field cum = cum - 1
+                                 /\ gen_sam_cr_probe e = m_cr_probe e /\ gen_sam_cr_adjust e c = m_cr_adjust e c.
+Proof. repeat split; bridge. Qed.
 (* INFO key lookup *)
 Lemma b_hfm_line_len : forall k, gen_hfm_line_len k = m_line_len k.  Proof. bridge. Qed.
 Lemma b_hfm_ignored : forall s k size, gen_hfm_ignored s k size = m_ignored s k size.  Proof. bridge. Qed.
